@@ -13,8 +13,9 @@ from checks import scenarios as S
 
 PROP = "C08"
 LEVEL = "proof"
-THEOREMS = {"Proofs.Props.C08": ["MsPack.Cab.C08_not_reusable_is_fresh", "MsPack.Cab.C08_backward_seek_is_fresh"]}
-ASSUMPTIONS = ["forward re-use of a live decoder needs the decoders' chunking law, not yet a theorem: covered by the history oracle and model agreement",
+THEOREMS = {"Proofs.Props.C08": ["MsPack.Cab.C08_not_reusable_is_fresh", "MsPack.Cab.C08_backward_seek_is_fresh"],
+            "Proofs.Props.C08Stored": ["MsPack.Cab.C08_stored_any_order"]}
+ASSUMPTIONS = ["forward re-use of a live decoder is proved for stored folders (C08_stored_any_order: any call sequence, any order, repeated members); for MSZIP/LZX/Quantum it needs the decoders' chunking law, not yet a theorem: covered by the history oracle and model agreement",
                "fault-free host"]
 RULE = ("cab.history / chm.history: well-formed generated archives (cab: 1-3 folders, split sets; chm: both sections), a history of 6-14 extract calls drawn with repetition over "
         "all members (two archives interleaved on one decompressor in a third of the cases; one block of one folder damaged in a quarter), each call compared with the same member "
